@@ -255,6 +255,9 @@ _PATCH_NOTES = {
     "RZB": "repaired seed: Session { txn, client } + Change enum + conclude()", "RZC": "repaired seed: creating_client(op) retry helper + register_client",
     "RZD": "repaired seed: routes from an ApiPath / endpoint() table instead of the route macros", "RZF": "repaired seed: SNAPSHOT_COLS via format! + positional SnapshotCols",
     "RZG": "repaired seed: ServerConfig::with_* builders + ServerArgs helpers", "RZH": "repaired seed: ParentRequest::run generic retry helper",
+    "RVA": "repaired seed: TxnExt blanket extension trait with client() / finish()", "RVB": "repaired seed: Submission / Attempt extracted from the add-version handler",
+    "RVF": "repaired seed: Lookup enum as the value of the add_snapshot search loop", "RVG": "repaired seed: SnapshotRequest newtype + MIN_REQUESTED_URGENCY const",
+    "RVH": "repaired seed: ProtocolHeader trait, const value table, extension trait on HttpResponseBuilder",
     "QA1": "round 11: from_thresholds generic helper", "QA2": "round 11: one match over client.snapshot", "QA3": "round 11: snapshot_version_is_recent() -> Result<bool>", "QA4": "round 11: accepts_parent_version predicate",
     "QB1": "round 11: derive Default for Inner", "QB2": "round 11: and_then chain in get_version_by_parent", "QB3": "round 11: client()/client_mut() helpers", "QB4": "round 11: let-else + bail! guard clauses",
     "QC1": "round 11: SCHEMA_QUERIES const slice", "QC2": "round 11: get_version_impl without client_id parameter", "QC3": "round 11: explicit match in get_snapshot_data", "QC4": "round 11: client_from_row named mapper",
